@@ -472,9 +472,29 @@ def _put_one_constant(
     if (value < 0 if isinstance(value, (int, float)) else value.imag < 0 if isinstance(value, complex) else False):
         raise NodeError('Constant.value cannot be negative')
 
+    ast = self.a
+
+    if ast.__class__ is Constant:  # if part of a pattern expression then the new value must still make a valid pattern expression, e.g. 'case 1' -> 'case None' would reparse to a MatchSingleton and 'case 1 + 2j' only allows numbers
+        top = self
+
+        while (parent := top.parent) and parent.a.__class__ in (UnaryOp, BinOp):
+            top = parent
+
+        if parent and (parent_cls := parent.a.__class__) in (MatchValue, MatchMapping):
+            old_value = ast.value
+            ast.value = value
+
+            try:
+                is_valid = (is_valid_MatchValue_value if parent_cls is MatchValue else is_valid_MatchMapping_key)(top.a)
+            finally:
+                ast.value = old_value
+
+            if not is_valid:
+                raise NodeError(f'invalid Constant.value for {parent_cls.__name__} pattern expression'
+                                f', got {value.__class__.__name__}')
+
     self._put_src(repr(value), *self.loc, True)
 
-    ast = self.a
     ast.value = value
 
     if hasattr(ast, 'kind'):  # reset any 'u' kind strings
